@@ -2,6 +2,7 @@ CONSTANTS
   Model = "univ"
   MaxSteps = 2
   Hist = FALSE
+  AllowDie = FALSE
   TransOnlyAsserted = FALSE
   TransOutOnly = FALSE
   NoInverseOfInferred = TRUE
